@@ -17,7 +17,7 @@ EVIDENCE = os.path.join(ROOT, "evidence") if not OVERRIDE else os.path.join(TARG
 NO_MIRI = bool(os.environ.get("VERIF_NO_MIRI"))
 CARGO_CONFIG = ["--config", 'paths=["%s"]' % OVERRIDE] if OVERRIDE else []
 MIRIFLAGS = "-Zmiri-tree-borrows -Zmiri-disable-isolation"
-RIG_PKG = {"r5": "rig_r5", "r9": "rig_r9", "r1": "rig_misc", "r0": "rig_misc"}
+RIG_PKG = {"r5": "rig_r5", "r9": "rig_r9", "r1": "rig_misc", "r0": "rig_misc", "r3": "rig_misc"}
 
 
 class Ctx:
@@ -815,7 +815,7 @@ class CtorPlan(ToolPlan):
         return jobs
 
 
-ALL_RIGS = ["r5", "r9", "r1", "r0"]
+ALL_RIGS = ["r5", "r9", "r1", "r0", "r3"]
 
 PLANS = {
     "C01": SeqPlan("C01", ["general"], ALL_RIGS, quick=(5, 120, 300), thorough=(8, 1500, 400), miri_quick=6, miri_thorough=32,
